@@ -172,14 +172,13 @@ func (k Keeper) UpdateLPRewards(ctx sdk.Context) error {
 	if err != nil {
 		return err
 	}
-	gasFeesForLpsDec = gasFeesForLpsDec.Add(perpRevenue...)
+	// only whole coins were moved into the module account: credit no more than that
+	gasFeeUsdcAmountForLps := gasFeesForLpsDec.AmountOf(baseCurrency).TruncateDec().
+		Add(perpRevenue.AmountOf(baseCurrency).TruncateDec())
 	_, _, rewardsPerPool, err := k.CollectDEXRevenue(ctx)
 	if err != nil {
 		return err
 	}
-
-	// USDC amount in math.LegacyDec type
-	gasFeeUsdcAmountForLps := gasFeesForLpsDec.AmountOf(baseCurrency)
 
 	// Proxy TVL
 	// Multiplier on each liquidity pool
@@ -219,7 +218,7 @@ func (k Keeper) UpdateLPRewards(ctx sdk.Context) error {
 		poolShare := math.LegacyZeroDec()
 		poolShareEdenEnable := math.LegacyZeroDec()
 		if totalProxyTVL.IsPositive() {
-			poolShare = proxyTVL.Quo(totalProxyTVL)
+			poolShare = proxyTVL.QuoTruncate(totalProxyTVL)
 		}
 
 		if totalProxyTvlEdenEnable.IsPositive() {
@@ -248,7 +247,7 @@ func (k Keeper) UpdateLPRewards(ctx sdk.Context) error {
 		}
 
 		// Get gas fee rewards per pool
-		gasRewardsAllocatedForPool := poolShare.Mul(gasFeeUsdcAmountForLps)
+		gasRewardsAllocatedForPool := poolShare.MulTruncate(gasFeeUsdcAmountForLps)
 
 		// ------------------- DEX rewards calculation -------------------
 		// ---------------------------------------------------------------
